@@ -102,10 +102,9 @@ impl<T> OneShotShared<T> {
         }
       }
       // If state was WRITING, TAKEN, or CLOSED, wake the receiver if needed.
-      else if self.state.load(Ordering::Relaxed) != STATE_TAKEN
-        && self.state.load(Ordering::Relaxed) != STATE_SENT
-      {
-        // Avoid waking if value is there or taken
+      else if self.state.load(Ordering::Relaxed) != STATE_SENT {
+        // A receiver polling again after it took the value is still owed this wake-up
+        // (it will observe Disconnected); only a value waiting in the slot needs none.
         self.receiver_waker.wake();
       }
     }
